@@ -30,17 +30,17 @@ VAL = [-1.5, 0.0, 0.25, 2.0]
 
 def bound(tier):
     q = tier == "quick"
-    return dict(merge=dict(values=VAL, max_length=6 if q else 7, compositions="all 2^(L-1)"),
-                drivers=dict(num_samples=[1, 6], num_chains=[0, 7], burn_in=[0, 1, 3], steps=[0, 1, 2], initial_state=["None", 1, 2, 3],
+    return dict(merge=dict(values=VAL, max_length=6 if q else 8, compositions="all 2^(L-1)"),
+                drivers=dict(num_samples=[1, 6 if q else 9], num_chains=[0, 7 if q else 10], burn_in=[0, 1, 3], steps=[0, 1, 2], initial_state=["None", 1, 2, 3],
                              overwrite=[False, True], observables=["SigmaZ", "SigmaX - 2*SigmaZ (composite)", "System(SigmaZ, SigmaX, NeighbourInteraction)"],
                              kinds=["positive", "complex", "mixed"] if not q else ["positive", "mixed", "complex(reduced)"]))
 
 
 def plan(tier, seed):
     items = []
-    Lmax = 6 if tier == "quick" else 7
+    Lmax = 6 if tier == "quick" else 8
     for L in range(1, Lmax + 1):
-        parts = 1 if L <= 4 else (4 if L == 5 else 16 if L == 6 else 64)
+        parts = 1 if L <= 4 else (4 if L == 5 else 16 if L == 6 else 64 if L == 7 else 256)
         for p in range(parts):
             items.append(dict(layer="merge", L=L, part=p, parts=parts))
     for off in (1e6, -3e8):
@@ -48,12 +48,12 @@ def plan(tier, seed):
             items.append(dict(layer="merge", L=L, part=0, parts=1, offset=off))
     for kind in ("positive", "complex", "mixed"):
         for oset in ("Z", "composite", "system", "offset"):
-            for ns in range(1, 7):
+            for ns in range(1, 7 if tier == "quick" else 10):
                 if oset == "offset" and (kind != "positive" or ns in (2, 5)):
                     continue
                 if tier == "quick" and kind == "complex" and (oset != "system" or ns in (4, 5)):
                     continue
-                items.append(dict(layer="driver", kind=kind, oset=oset, ns=ns))
+                items.append(dict(layer="driver", kind=kind, oset=oset, ns=ns, tier=tier))
     return items
 
 
@@ -249,7 +249,7 @@ def run_item(item):
     flagged = set()
     kind, oset, ns = item["kind"], item["oset"], item["ns"]
     with RngGuard("observe"):
-        for nc in range(0, 8):
+        for nc in range(0, 8 if item.get("tier", "quick") == "quick" else 11):
             for bi in (0, 1, 3):
                 for stp in (0, 1, 2):
                     for init in (None, 1, 2, 3):
